@@ -6,7 +6,7 @@ from vlib import gen_events as ge
 from vlib import gen_values as gv
 from vlib.compare import bisimilar
 from vlib.runner import Arm, Eval, Failure
-from vlib.util import exc_key, exc_msg, have_c
+from vlib.util import exc_key, exc_msg, have_c, shorthand_with_flow_indicator
 
 PROPERTY = "C06"
 LEVEL = "exploration"
@@ -303,6 +303,11 @@ def eval_dumped_events(case):
     evals = 0
     cl = {"dumped:events"}
     for dname, D in (("py", yaml.Dumper), ("c", yaml.CDumper)):
+        if dname == "c" and shorthand_with_flow_indicator(ge.build_events(stream)):
+            # listed known finding libyaml-emitter-writes-flow-indicator-in-shorthand-tag: LibYAML's emitter writes a shorthand tag
+            # that LibYAML's scanner rejects by design (outside the portable subset); excluded by construction and counted
+            cl.add("excluded:c-emitted-flow-indicator-in-shorthand-tag")
+            continue
         try:
             text = yaml.emit(ge.build_events(stream), Dumper=D, **opts)
         except Exception:
@@ -541,4 +546,7 @@ def pinned_known(key, rec):
         if not have_c():
             return False
         return yaml.load("- !", Loader=yaml.SafeLoader) != yaml.load("- !", Loader=yaml.CSafeLoader)
+    if key == "libyaml-emitter-writes-flow-indicator-in-shorthand-tag":
+        from checks import c05
+        return c05.pinned_known(key, rec)
     return True
